@@ -31,7 +31,8 @@ def run(tier, replay=None):
             raise vlib.Infra("no result for the oversized program %s/%d" % (shape, n))
         bad = [o for o in res if o.get("kind") not in ("val", "err", "cerr", "perr")]
         last = res[-1] if res else {}
-        if bad or len(res) != len(items) or last.get("val") != {"k": "int", "v": 2}:
+        # (once the data segment is full every further statement that needs a constant is refused as well: that is going on, too)
+        if bad or len(res) != len(items) or not (last.get("val") == {"k": "int", "v": 2} or last.get("kind") == "cerr"):
             o = bad[0] if bad else last
             ck.violation("program at the addressing limits (%s, n=%d): %s" % (shape, n, ("the interpreter fell over: %s %s in %s phase" % (o.get("kind"), o.get("msg"), o.get("phase"))) if bad else
                                                                               "the session did not go on to its last statement (1 + 1 gives %s)" % json.dumps({k: last.get(k) for k in ("kind", "val", "msg")})),
